@@ -67,17 +67,27 @@ for f in FILES:
                     mutants.append((f, i, lines[i].strip(), new.strip(), "\n".join(lines[:i] + [new] + lines[i + 1:])))
 print("candidates:", len(mutants), flush=True)
 results = []
+resume = os.path.join(verif, "work", "mutation_results.json")
+if os.path.exists(resume):
+    results = json.load(open(resume))
+seen = set((r["file"], r["line"], r["new"]) for r in results)
 env = {"CFVERIF_REPO": repo, "CARGO_NET_OFFLINE": "true"}
 props = "C01 C02 C03 C04 C05 C06 C07 C08 C09 C10 C11 C12 C13 C14 C15 C16 C17 C18".split()
 done = 0
 step = max(1, len(mutants) // maxn)
 for k, (f, i, old, new, text) in enumerate(mutants[::step]):
+    if (f, i + 1, new) in seen:
+        continue
     path = os.path.join(repo, f)
     orig = open(path).read()
     open(path, "w").write(text)
     try:
-        r = sh("cargo test --workspace --offline 2>&1 | grep -E '^test result|^error' | head -5", repo)
-        passed = r.stdout.count("test result: ok") == 2 and "error" not in r.stdout
+        try:
+            r = sh("timeout -k 5 240 cargo test --workspace --offline 2>&1 | grep -E '^test result|^error' | head -5", repo, timeout=400)
+            passed = r.stdout.count("test result: ok") == 2 and "error" not in r.stdout
+        except subprocess.TimeoutExpired:
+            passed = False
+        sh("pkill -9 -f %s/target/debug/deps/chainfile- || true" % repo, repo)
         if not passed:
             results.append({"file": f, "line": i + 1, "old": old, "new": new, "status": "killed-by-tests-or-compiler"})
             continue
